@@ -8,8 +8,10 @@ for id in $ids; do
   if [ -n "$(git -C /repo status --porcelain)" ]; then echo "/repo not clean"; exit 3; fi
   if ! git -C /repo apply --check /verif/seeded/$id/patch.diff 2>/dev/null; then echo "$id NOAPPLY"; continue; fi
   git -C /repo apply /verif/seeded/$id/patch.diff
+  cp evidence/$prop.json /tmp/evidence_$prop.keep 2>/dev/null     # evidence files must describe runs on the unchanged tree only
   out=$(./check $prop --tier quick 2>&1 | grep -E "VIOLATION|tier=" | cut -c1-200)
   git -C /repo checkout -- .
+  cp /tmp/evidence_$prop.keep evidence/$prop.json 2>/dev/null; rm -f /tmp/evidence_$prop.keep
   if echo "$out" | grep -q "^VIOLATION"; then det="./check $prop --tier quick"; else det=""; fi
   /venv/bin/python - "$id" "$det" <<'PY'
 import json, sys
